@@ -256,8 +256,16 @@ def shard_file(progs: list[dict], attr_cases: list[tuple[list, list]], builtin_n
         if r is None:
             r = f"ns{len(ns_defs)}"
             ns_defs[key] = r
-            ns_lines.append(f"Definition {r} : list N := {it.lst(key)}.")
         return r
+
+    def emit_ns():
+        # the name sets of a shard share most of their members (builtins + the builder module's own globals):
+        # write the common part once (list concatenation; membership is unchanged)
+        keys = list(ns_defs.keys())
+        base = set(keys[0]).intersection(*map(set, keys[1:])) if keys else set()
+        ns_lines.append(f"Definition nsbase : list N := {it.lst(sorted(base))}.")
+        for key, r in ns_defs.items():
+            ns_lines.append(f"Definition {r} : list N := {it.lst([n for n in key if n not in base])} ++ nsbase.")
 
     heap_names: dict = {}
     heap_lines = []
@@ -312,6 +320,7 @@ def shard_file(progs: list[dict], attr_cases: list[tuple[list, list]], builtin_n
             if txt not in ascases:
                 ascases[txt] = i
                 askeys.append(i)
+    emit_ns()
     txt = HEADER + "\n".join(ns_lines) + "\n" + "\n".join(heap_lines) + "\n" + "\n".join(lines) + "\n"
     txt += "Definition cases : list pcase :=\n  [" + ";\n   ".join(f"mkCase {nm} {nf} {wm} {wf} p{i}" for i, nm, nf, wm, wf in ok_idx) + "].\n"
     # holder attributes: reads vs sets, per schema
